@@ -1046,7 +1046,8 @@ func unknownHelper(fn *ssa.Function, depth int) bool {
 	if !strings.HasPrefix(fnPkgPath(fn), modPath) {
 		return false
 	}
-	return !knownFuncs[QualName(fn)]
+	_, known := knownFuncs[QualName(fn)]
+	return !known
 }
 
 func (w *Walker) isLockCall(name string) (kind string) {
